@@ -4,6 +4,7 @@ import (
 	"encoding/hex"
 	"fmt"
 	"regexp"
+	"sort"
 	"strings"
 
 	"github.com/preslavrachev/gomjml/mjml"
@@ -248,6 +249,54 @@ func runC12(res *Result, tier string, seed int64, replay string) {
 			res.Violate(Violation{Sig: "rewrite-changes-output|line-ends", Kind: "input",
 				What:  fmt.Sprintf("CRLF line ends change the output at offset %d: …%s… vs LF …%s… (errors %q vs %q)", at, around(nb, at), around(na, at), be, ae),
 				Input: map[string]string{"source": lf, "variant": crlf, "rewrite": "line-ends"}})
+		}
+	}
+	// escaped text vs the same characters in a CDATA section, in the middle of a text with blanks around it, in every content
+	// slot that reads character data (XML does not distinguish the two spellings)
+	{
+		slots := map[string]func(string) string{
+			"table-cell": func(c string) string { return "<mj-table><tr><td>" + c + "</td><td> " + c + " </td></tr></mj-table>" },
+			"button":     func(c string) string { return `<mj-button href="u">` + c + "</mj-button>" },
+			"navbar-link": func(c string) string {
+				return `<mj-navbar><mj-navbar-link href="/a">` + c + "</mj-navbar-link></mj-navbar>"
+			},
+			"accordion-title": func(c string) string {
+				return "<mj-accordion><mj-accordion-element><mj-accordion-title>" + c + "</mj-accordion-title><mj-accordion-text>" + c + "</mj-accordion-text></mj-accordion-element></mj-accordion>"
+			},
+			"social-element": func(c string) string {
+				return `<mj-social><mj-social-element name="facebook" href="h">` + c + "</mj-social-element></mj-social>"
+			},
+			"inline-in-button": func(c string) string { return `<mj-button href="u">x <b>` + c + "</b> y</mj-button>" },
+			"title-preview":    func(c string) string { return "" },
+		}
+		pairs := [][2]string{{"Tom &amp; Jerry", "Tom <![CDATA[&]]> Jerry"}, {"a &lt;b&gt; c", "a <![CDATA[<b>]]> c"}, {"1 &lt; 2 &amp;&amp; 3 &gt; 2", "1 <![CDATA[<]]> 2 <![CDATA[&&]]> 3 <![CDATA[>]]> 2"},
+			{"x &amp;copy; y", "x <![CDATA[&copy;]]> y"}, {"lead &amp;", "lead <![CDATA[&]]>"}, {"&amp; trail", "<![CDATA[&]]> trail"}}
+		var names []string
+		for n := range slots {
+			names = append(names, n)
+		}
+		sort.Strings(names)
+		for _, n := range names {
+			for pi, pr := range pairs {
+				var da, db string
+				if n == "title-preview" {
+					da = "<mjml><mj-head><mj-title>" + pr[0] + "</mj-title><mj-preview>" + pr[0] + "</mj-preview></mj-head><mj-body><mj-section><mj-column><mj-text>t</mj-text></mj-column></mj-section></mj-body></mjml>"
+					db = "<mjml><mj-head><mj-title>" + pr[1] + "</mj-title><mj-preview>" + pr[1] + "</mj-preview></mj-head><mj-body><mj-section><mj-column><mj-text>t</mj-text></mj-column></mj-section></mj-body></mjml>"
+				} else {
+					da = "<mjml><mj-body><mj-section><mj-column>" + slots[n](pr[0]) + "</mj-column></mj-section></mj-body></mjml>"
+					db = "<mjml><mj-body><mj-section><mj-column>" + slots[n](pr[1]) + "</mj-column></mj-section></mj-body></mjml>"
+				}
+				a, ae := renderSeq(da)
+				b, be := renderSeq(db)
+				res.Case(fmt.Sprintf("cdata-vs-escaped|%s|%d", n, pi), true)
+				res.Count("rewrite=cdata-vs-escaped")
+				if alphaIDs(a) != alphaIDs(b) || ae != be {
+					at := firstDiff(alphaIDs(b), alphaIDs(a))
+					res.Violate(Violation{Sig: "rewrite-changes-output|cdata-vs-escaped|" + n, Kind: "input",
+						What:  fmt.Sprintf("%s: %q written as %q changes the output at offset %d: …%s… vs …%s… (errors %q vs %q)", n, pr[0], pr[1], at, around(alphaIDs(b), at), around(alphaIDs(a), at), be, ae),
+						Input: map[string]string{"source": da, "variant": db, "rewrite": "cdata-vs-escaped"}})
+				}
+			}
 		}
 	}
 	for _, f := range loadFixtures() {
